@@ -82,7 +82,71 @@ class World(object):
         self.ab = params["ab"]
 
 
+
+class EdWorld(object):
+    """the same for a twisted Edwards generator (Ed25519 / Ed448): fresh generator G with an empty table, a point Q
+    in extended coordinates with Z != 1"""
+    kind = "edwards"
+
+    def __init__(self, cname, params):
+        E = ec()
+        from register_crypto_plugin.ecdsa import eddsa
+        g0 = {"Ed25519": eddsa.generator_ed25519, "Ed448": eddsa.generator_ed448}[cname]
+        self.curve = g0.curve()
+        p = int(self.curve.p())
+        gx, gy, n = int(g0.x()), int(g0.y()), int(g0.order())
+        self.p, self.n = p, n
+        self.cls = E.PointEdwards
+        self.G = E.PointEdwards(self.curve, gx, gy, 1, gx * gy % p, n, generator=True)
+        ref = E.PointEdwards(self.curve, gx, gy, 1, gx * gy % p, n)
+        d, z = params["d"], params["z"] % p or 2
+        q = ref * d
+        qx, qy = int(q.x()), int(q.y())
+        self.Q = E.PointEdwards(self.curve, qx * z % p, qy * z % p, z, qx * qy * z % p, n)
+        self.Qcopy = E.PointEdwards(self.curve, qx, qy, 1, qx * qy % p, n)
+        self.Gcopy = E.PointEdwards(self.curve, gx * 2 % p, gy * 2 % p, 2, gx * gy * 2 % p, n)
+        self.ks = params["ks"]
+        self.ab = params["ab"]
+        self.sig_ok = True
+
+
+def make_world(cname, params):
+    return EdWorld(cname, params) if cname in ("Ed25519", "Ed448") else World(cname, params)
+
+
+def ed_order(cname):
+    from register_crypto_plugin.ecdsa import eddsa
+    return int({"Ed25519": eddsa.generator_ed25519, "Ed448": eddsa.generator_ed448}[cname].order())
+
+
+def ed_b_ops(w):
+    E = ec()
+    ops = []
+    for k in w.ks:
+        ops.append(("%d*G" % k, lambda k=k: aff(w.G * k)))
+    ops += [
+        ("G.x()", lambda: int(w.G.x())),
+        ("G.y()", lambda: int(w.G.y())),
+        ("G==copy", lambda: w.G == w.Gcopy),
+        ("G==INF", lambda: w.G == E.INFINITY),
+        ("Q.x()", lambda: int(w.Q.x())),
+        ("Q.y()", lambda: int(w.Q.y())),
+        ("Q==copy", lambda: w.Q == w.Qcopy),
+        ("Q!=G", lambda: w.Q != w.G),
+        ("%d*Q" % w.ks[4], lambda: aff(w.Q * w.ks[4])),
+        ("Q+G", lambda: aff(w.Q + w.G)),
+        ("G+Q", lambda: aff(w.G + w.Q)),
+        ("Q.double()", lambda: aff(w.Q.double())),
+        ("G.double()", lambda: aff(w.G.double())),
+    ]
+    return ops
+
 def gen_params(rng, cname):
+    if cname in ("Ed25519", "Ed448"):
+        n = ed_order(cname)
+        return {"d": rng.randrange(2, n), "z": rng.randrange(2, 1 << 200), "k": 0, "h": 0,
+                "ks": [2, 3, n - 1, n + 1, rng.randrange(2, n), rng.randrange(n, 2 * n)],
+                "ab": (rng.randrange(1, n), rng.randrange(1, n))}
     p, a, b, gx, gy, n = curve_params(cname)
     while True:
         d = rng.randrange(2, n)
@@ -99,6 +163,8 @@ def gen_params(rng, cname):
 
 def b_ops(w):
     """complete operations of the second thread, on the shared G and Q of world w"""
+    if getattr(w, "kind", "") == "edwards":
+        return ed_b_ops(w)
     E = ec()
     ops = []
     for k in w.ks:
@@ -132,6 +198,10 @@ SCENARIOS = {
     "scale": (lambda w: aff(w.Q.scale()), ("scale",)),
     "to_affine": (lambda w: aff(w.Q.to_affine()), ("scale", "to_affine")),
     "verify": (lambda w: w.pub.verifies(w.h, w.sig), ("_maybe_precompute", "scale", "mul_add", "__mul__")),
+    # twisted Edwards generators (Ed25519 / Ed448)
+    "ed-table": (lambda w: aff(w.G * w.ks[5]), ("_maybe_precompute",)),
+    "ed-scale": (lambda w: aff(w.Q.scale()), ("scale",)),
+    "ed-mul": (lambda w: aff(w.G * w.ks[4]), ("_maybe_precompute", "__mul__", "_mul_precompute", "scale")),
 }
 
 
@@ -150,11 +220,11 @@ def run_schedule(cname, params, scenario, point, deep=False, rotate=0):
     number `point` (None: no injection, just count the points).
     Returns (npoints, a_result, b_results, where)"""
     E = ec()
-    w = World(cname, params)
+    w = make_world(cname, params)
     op_a, methods = SCENARIOS[scenario]
     codes = set()
     for m in methods:
-        codes.add(getattr(E.PointJacobi, m).__code__)
+        codes.add(getattr(getattr(w, "cls", E.PointJacobi), m).__code__)
     shared = (w.G, w.Q)
     efile = E.__file__
     counter = [0]
@@ -205,13 +275,13 @@ def run_schedule(cname, params, scenario, point, deep=False, rotate=0):
 
 def expected(cname, params, scenario):
     """the same operations on private objects, one after another"""
-    w = World(cname, params)
+    w = make_world(cname, params)
     op_a, _ = SCENARIOS[scenario]
     exp_b = {}
-    for name, f in b_ops(World(cname, params)):
+    for name, f in b_ops(make_world(cname, params)):
         exp_b[name] = _call(f)
     # results must not depend on the order either: check once with a shared world, sequentially
-    w2 = World(cname, params)
+    w2 = make_world(cname, params)
     for name, f in b_ops(w2):
         v = _call(f)
         if v != exp_b[name]:
